@@ -85,7 +85,27 @@ def recipes(fams):
 
 def make_streams(recs):
     """-> executor stream arguments; a half-rate recipe is the same file passed as hr:<path>"""
-    return [('hr:' if r.get('hr') else '') + mk(r['name'], r['maker'], **r['kw'])[0] for r in recs]
+    return [('lap:' if r.get('lap') else '') + ('hr:' if r.get('hr') else '') + mk(r['name'], r['maker'], **r['kw'])[0] for r in recs]
+
+
+def lap_recipes(recs, wanted):
+    """Same files, every block read through vorbis_synthesis_lapout (pcmout(v,NULL) count, lapout data, read); wanted = [(family, style, halfrate)]."""
+    out = []
+    for f, st, hr in wanted:
+        r = [x for x in recs if x['family'] == f and x['style'] == st and not x.get('hr') and not x.get('lap')][0]
+        out.append(dict(r, lap=True, hr=bool(hr)))
+    return out
+
+
+def tag(cases, prefix):
+    return [(line, (sig[0], prefix + sig[1], sig[2])) for line, sig in cases]
+
+
+def base_kind(k):
+    for p in ('lap_', 'hr_'):
+        if k.startswith(p):
+            k = k[len(p):]
+    return k
 
 
 def hr_recipes(recs, wanted):
@@ -229,7 +249,7 @@ def absorb(chk, acc, cases, res, recs, infos, flavour, fixed):
             acc.tot['skipped'] += 1
             acc.kinds[kind]['skipped'] += 1
             continue
-        desc = f"stream {recs[si]['name']}{' at HALF RATE' if recs[si].get('hr') else ''} ({infos[si]['blocks']}) case '{line}' [{flavour}]: {r[:300]}"
+        desc = f"stream {recs[si]['name']}{' at HALF RATE' if recs[si].get('hr') else ''}{' read through LAPOUT' if recs[si].get('lap') else ''} ({infos[si]['blocks']}) case '{line}' [{flavour}]: {r[:300]}"
         chk.violation(vkey(kind, style, d, status), desc,
                       {'case': line, 'flavour': flavour, 'recipes': recs, 'fixed': fixed, 'result': r[:400], 'first_failing_inner': d.get('inner')})
 
@@ -254,6 +274,10 @@ def run(tier):
     # half-rate pass: streams whose short block is > 64 samples and that really switch between short and long blocks
     hr_wanted = [('c44k', 'page')] + ([('c44k', 'every'), ('b16k_clicks', 'page'), ('b16k_clicks', 'every'), ('b16k', 'page'), ('c44k_long', 'page')] if tier == 'thorough' else [])
     recs += hr_recipes(recs, hr_wanted)
+    # lapout read path: block-switching streams (long->short transitions put the ring into its wrapped, unequal-halves phase)
+    lap_wanted = [('c44k', 'page', 0), ('f0r0', 'page', 0), ('m3', 'page', 0), ('r2', 'every', 0)] + \
+                 ([('c44k', 'every', 0), ('b16k_clicks', 'page', 0), ('c44k', 'page', 1), ('c44k_long', 'page', 0)] if tier == 'thorough' else [])
+    recs += lap_recipes(recs, lap_wanted)
     paths = make_streams(recs)
     infos = stream_info(exe, paths)
     # the quick tier is sized to fit its budget and is never cut; thorough stops starting new phases 21 min after the build
@@ -261,7 +285,7 @@ def run(tier):
     # --- preconditions on the zoo (vacuity guards)
     okzoo = True
     for f in fams:
-        e, p, t = [i for i, r in enumerate(recs) if r['family'] == f and not r.get('hr')]
+        e, p, t = [i for i, r in enumerate(recs) if r['family'] == f and not r.get('hr') and not r.get('lap')]
         okzoo &= infos[e]['packets_hash'] == infos[p]['packets_hash']
         chk.cov['evaluations'] += 1
         if infos[e]['pcm_hash'] != infos[p]['pcm_hash'] or infos[e]['counts'] != infos[p]['counts']:
@@ -319,13 +343,13 @@ def run(tier):
         phases_done.append(f'{name}:{len(cases)} case lines:{time.time() - ts:.1f}s')
 
     def fam_idx(f):
-        return [i for i, r in enumerate(recs) if r['family'] == f and not r.get('hr')]
+        return [i for i, r in enumerate(recs) if r['family'] == f and not r.get('hr') and not r.get('lap')]
 
     quick_fams = ['a8k', 'b16k', 'c44k', 'd8k_imp', 'e8k_alt', 'f0r0', 'm3', 'r2']
     # --- page-level damage through vorbisfile (all streams incl. twins)
     pgc = []
     for si in range(len(recs)):
-        if not recs[si].get('hr'):
+        if not recs[si].get('hr') and not recs[si].get('lap'):
             pgc += page_cases(si, paths[si])
     phase('pages', pgc)
     # --- ASan pass: all bit flips + truncations of the smallest stream (both styles)
@@ -345,11 +369,27 @@ def run(tier):
         singles += single_cases(e, infos[e], [t], e)
         singles += single_cases(p, infos[p], [t], p)
     def hr_idx(f, st):
-        return [i for i, r in enumerate(recs) if r.get('hr') and r['family'] == f and r['style'] == st][0]
+        return [i for i, r in enumerate(recs) if r.get('hr') and not r.get('lap') and r['family'] == f and r['style'] == st][0]
 
     # half-rate pass (quick): every single disturbance incl. all bit flips, truncations, restarts on the 44.1 kHz page-style stream
     hq = hr_idx('c44k', 'page')
     singles += hr_tag(single_cases(hq, infos[hq], [fam_idx('c44k')[2]], hq))
+
+    def lap_idx(f, st, hr):
+        return [i for i, r in enumerate(recs) if r.get('lap') and bool(r.get('hr')) == bool(hr) and r['family'] == f and r['style'] == st][0]
+
+    # lapout read path (quick): every single disturbance incl. all bit flips, truncations, restarts (own + twin history)
+    for f, st, hr in lap_wanted[:4]:
+        li = lap_idx(f, st, hr)
+        singles += tag(single_cases(li, infos[li], [fam_idx(f)[2]], li), 'lap_')
+    # the finished samples read through lapout must be exactly those of the pcmout path (clean streams)
+    for li, r in enumerate(recs):
+        if r.get('lap'):
+            chk.cov['evaluations'] += 1
+            if infos[li]['lap_equals_pcmout'] != 1:
+                chk.violation(f"clean_lapout_differs_from_pcmout:{r['family']}:{r['style']}{':halfrate' if r.get('hr') else ''}",
+                              f"stream {r['name']}: clean decode read through vorbis_synthesis_lapout differs from the pcmout path, first at packet {infos[li]['lap_first_diff']}",
+                              {'case': 'lapinfo', 'recipes': [r]})
     phase('single', singles)
     if tier == 'thorough':
         # pairs of disturbances: every k1<k2 x 7x7 simple operations
@@ -368,6 +408,17 @@ def run(tier):
             cs = hr_tag(single_cases(si, infos[si], [fam_idx(f)[2]], si))
             phase(f'halfrate_single_{f}_{st}_structural', [c for c in cs if c[1][1] not in ('hr_flip', 'hr_trunc')])
             phase(f'halfrate_single_{f}_{st}_flip_trunc', [c for c in cs if c[1][1] in ('hr_flip', 'hr_trunc')])
+        for f, st, hr in lap_wanted[4:]:
+            li = lap_idx(f, st, hr)
+            cs = tag(single_cases(li, infos[li], [fam_idx(f)[2]], li), 'lap_hr_' if hr else 'lap_')
+            phase(f'lapout_single_{f}_{st}{"_halfrate" if hr else ""}_structural', [c for c in cs if base_kind(c[1][1]) not in ('flip', 'trunc')])
+            phase(f'lapout_single_{f}_{st}{"_halfrate" if hr else ""}_flip_trunc', [c for c in cs if base_kind(c[1][1]) in ('flip', 'trunc')])
+        lq = lap_idx('c44k', 'page', 0)
+        phase('lapout_pairs_simple_c44k_page', tag(pair_cases_simple(lq, infos[lq]), 'lap_'))
+        phase('lapout_pairs_flip_c44k_page', tag(pair_cases_flip(lq, infos[lq]), 'lap_'))
+        lm = lap_idx('m3', 'page', 0)
+        phase('lapout_pairs_simple_m3_page', tag(pair_cases_simple(lm, infos[lm]), 'lap_'))
+        phase('lapout_pairs_flip_m3_page', tag(pair_cases_flip(lm, infos[lm]), 'lap_'))
         phase('halfrate_pairs_simple_c44k_page', hr_tag(pair_cases_simple(hq, infos[hq])))
         phase('halfrate_pairs_flip_c44k_page', hr_tag(pair_cases_flip(hq, infos[hq])))
         # longer streams: all single disturbances (split so that the deadline cuts at a phase boundary)
@@ -379,7 +430,7 @@ def run(tier):
                 phase(f'single_{f}_{recs[si]["style"]}_flip_trunc', [c for c in cs if c[1][1] in ('flip', 'trunc')])
 
     # --- coverage
-    nontrivial = sorted(s for s, c in acc.by.items() if c['obs'] > 0 and (c['acc'] > 0 or s[1].replace('hr_', '', 1) in ('dropgap', 'drop') or s[1].replace('hr_', '', 1).startswith(('pair_', 'pg'))))
+    nontrivial = sorted(s for s, c in acc.by.items() if c['obs'] > 0 and (c['acc'] > 0 or base_kind(s[1]) in ('dropgap', 'drop') or base_kind(s[1]).startswith(('pair_', 'pg'))))
     T = acc.tot
     flips = acc.kinds['flip']
     samples = []
@@ -411,7 +462,7 @@ def run(tier):
         'start_trim_exemption_applied': T['sx'],
         'vorbisfile_page_cases': {k: dict(v) for k, v in sorted(acc.kinds.items()) if k.startswith('pg')},
         'skipped_case_lines': T['skipped'],
-        'streams': [{'name': r['name'], 'packets': i['packets'], 'bytes': i['bytes'], 'blocks': i['blocks'], 'granule_packets': i['granule_packets'], 'ch': i['ch'], 'silent_channel_mask': i['zeroch'], 'halfrate': bool(r.get('hr')), 'clean_samples': i['samples']} for r, i in zip(recs, infos)],
+        'streams': [{'name': r['name'], 'packets': i['packets'], 'bytes': i['bytes'], 'blocks': i['blocks'], 'granule_packets': i['granule_packets'], 'ch': i['ch'], 'silent_channel_mask': i['zeroch'], 'halfrate': bool(r.get('hr')), 'lapout_read_path': bool(r.get('lap')), 'clean_samples': i['samples']} for r, i in zip(recs, infos)],
         'phases': phases_done,
         'transition_kinds_hit_by_observable_flips': sorted(trans_hit),
     })
@@ -421,6 +472,7 @@ def run(tier):
         'streams start at granule 0 without initial trimming (a lost packet in a first page with start trimming makes the trim amount unknowable; not judged)',
         'restart histories come from streams with a byte-identical identification+setup header',
         'outputs are taken by one pcmout/read drain after every packet',
+        'lapout read path: lapout is called once per accepted block (pcmout(v,NULL) for the count, lapout for the data, read of the finished samples); only the finished samples are judged, the look-ahead part is not',
         'half-rate pass: packet level only (vorbis_synthesis_halfrate before vorbis_synthesis_init); page-level half-rate through vorbisfile is C20 territory',
         'page level: OV_HOLE is demanded except for a missing first audio page of a seekable open (vorbisfile restarts the stream state there, the gap is not detectable); tail judged only when a complete page follows the page after the gap',
     ]
@@ -435,6 +487,12 @@ def run(tier):
     chk.guard(all(any(acc.by[(f0, kind, k)]['n'] > 0 for k in range(infos[f0]['packets']) if infos[f0]['blocks'][k] == b) for b in 'SL' for kind in ('restart_own', 'restart_twin', 'dropgap', 'flip'))
               and infos[f0]['blocks'][0] == 'S' and acc.by[(f0, 'restart_own', infos[f0]['blocks'].index('L'))]['obs'] > 0,
               'floor-0 stream (one floor shared by both modes): restarts with an empty history at packets of the OTHER block size than the first audio packet (lazily built bark map) were executed')
+    lq0 = lap_idx('c44k', 'page', 0)
+    lpf = acc.kinds['lap_flip']
+    chk.guard(infos[lq0]['lap'] == 1 and 'LS' in infos[lq0]['blocks'] and lpf['n'] > 0 and lpf['obs'] > 0
+              and all(acc.kinds['lap_' + k]['n'] > 0 and acc.kinds['lap_' + k]['skipped'] == 0 for k in ('dropgap', 'drop', 'dup', 'dupr', 'zero', 'restart_own', 'restart_twin', 'trunc', 'repl', 'hdr'))
+              and any(acc.by[(lq0, 'lap_restart_own', k)]['n'] > 0 and acc.by[(lq0, 'lap_dropgap', k - 1)]['n'] > 0 for k in range(2, infos[lq0]['packets']) if infos[lq0]['blocks'][k:k + 2] == 'LS'),
+              'lapout read path ran on streams with long->short transitions: every kind incl. restart at the long packet before a short one and loss of the packet before that')
     hrf = acc.kinds['hr_flip']
     chk.guard(infos[hq]['halfrate'] == 1 and infos[hq]['samples'] * 2 == infos[fam_idx('c44k')[1]]['samples'] and hrf['n'] > 0 and hrf['obs'] > 0 and hrf['bsz'] > 0
               and all(acc.kinds['hr_' + k]['n'] > 0 and acc.kinds['hr_' + k]['skipped'] == 0 for k in ('dropgap', 'drop', 'dup', 'dupr', 'zero', 'restart_own', 'restart_twin', 'trunc', 'repl')),
@@ -451,6 +509,10 @@ def replay(path):
     vlib.build(flav, 'plain')
     exe = vlib.harness(flav, 'c11_damage')
     paths = make_streams(r['recipes'])
+    if r['case'] == 'lapinfo':
+        inf = stream_info(exe, paths)
+        print('clean lapout output equals pcmout output:', inf[0]['lap_equals_pcmout'] == 1)
+        return 0 if inf[0]['lap_equals_pcmout'] == 1 else 1
     if r['case'] == 'info':
         inf = stream_info(exe, paths)
         same = inf[0]['pcm_hash'] == inf[1]['pcm_hash'] and inf[0]['counts'] == inf[1]['counts']
